@@ -64,7 +64,7 @@ def scale_cases(root):
     return out
 
 
-def run_scale(cases, limit=90):
+def run_scale(cases, limit=30):
     for cs in cases:
         try:
             p = subprocess.run([ZV, "gen", cs["in"], cs["start"], "-"], capture_output=True, text=True, timeout=limit)
@@ -183,7 +183,7 @@ def run(tier, seed):
         "rule": f"{per} mutants of each of {len(bases)} base inputs (repository schemas and generated valid schema sets/WSDLs): 1-4 edits each, DOM-level (delete/duplicate/move element, drop/alter attribute, "
                 "retarget QName, self- and mutually-referential definitions, cyclic bases, tag renaming, enumeration without value, nesting up to 150, name swaps, stripped xmlns, added imports) or text-level "
                 "(truncation, garbage, non-XML, entity bombs, BOM); plus a scale family (12/40/150 namespaces sharing one abbreviation as imports and as prefixes, forward-reference extension chains of depth 12 and 60, "
-                "3000 components, 5000 enumeration values, a 20000-character name), each in its own process under a 90 s limit; run in-process under catch_unwind, re-run in a child process with a time limit when the batch dies; distinct = distinct file contents",
+                "3000 components, 5000 enumeration values, a 20000-character name), each in its own process under a 30 s limit; run in-process under catch_unwind, re-run in a child process with a time limit when the batch dies; distinct = distinct file contents",
         "samples": [{"mutations": cs["meta"]["features"], "base": cs["meta"]["base"], "impl": cs["impl"], "model": cs.get("model")} for cs in cases[:4]],
         "impl_outcome_classes": dict(outcomes),
         "mutation_operators": dict(ops),
